@@ -618,9 +618,7 @@ size_t SCPI_ResultArbitraryBlockHeader(scpi_t * context, size_t len) {
     char block_header[12];
     size_t header_len;
     block_header[0] = '#';
-    SCPI_UInt32ToStrBase((uint32_t) len, block_header + 2, 10, 10);
-
-    header_len = strlen(block_header + 2);
+    header_len = SCPI_UInt32ToStrBase((uint32_t) len, block_header + 2, 10, 10);
     block_header[1] = (char) (header_len + '0');
 
     context->arbitrary_remaining = len;
